@@ -250,11 +250,8 @@ func keyRoutes(s string, dec *gmrz.MRZ, pw *password.Password, r *refmrz.Report)
 	}
 	// "all ways of supplying the same document data open the same chip" also after a password object
 	// has been USED: run a basic-access key derivation with the object built from the full zone (against
-	// a stub that answers GET CHALLENGE and refuses EXTERNAL AUTHENTICATE), let the caller overwrite the
-	// key it was handed, and compare with a fresh object built from the three fields
-	for i := range k1 {
-		k1[i] ^= 0x5A
-	}
+	// a stub that answers GET CHALLENGE and refuses EXTERNAL AUTHENTICATE) and compare with a fresh
+	// object built from the three fields
 	var doc document.Document
 	bac.NewBAC(iso7816.NewNfcSession(stubChip{}), &doc, pw).DoBAC()
 	kAfter, eAfter := pw.Key()
